@@ -271,6 +271,10 @@ def unknown_ids(repo: Repo, rep, P: str):
 def _chunk_iterator(repo: Repo, cf: ast.FunctionDef) -> str:
     """'ok' / '?why' / what is wrong.  The iterator opens one unaligned little-endian Chunk per round of an endless loop, yields
     (name, payload), skips to the next chunk, and leaves the loop only through EOFError."""
+    try:
+        cf = inline.normalize(repo, None, cf, sf=repo.module("rv.lib.iff"))          # `with suppress(EOFError):` read as try/except
+    except Exception:
+        pass
     fparam = cf.args.args[0].arg if cf.args.args else "f"
     loops = [n for n in walk_no_nested(cf) if isinstance(n, (ast.While, ast.For))]
     if len(loops) != 1 or not isinstance(loops[0], ast.While):
